@@ -44,6 +44,12 @@ type Case struct {
 	// Prelude: an exchange served by the same Validator / ValidationHandler before the one that is
 	// judged ("" = none). Whatever it was, the judged exchange must go as it goes on a fresh instance.
 	Prelude string `json:"prelude,omitempty"` // head | invalid | unroutable | bad-response | good-response
+	// VOpts: validation options given to the Validator: 1 ExcludeResponseBody, 2 IncludeResponseStatus, 4 MultiError
+	VOpts int `json:"vopts,omitempty"`
+}
+
+func vopts(c Case) openapi3filter.Options {
+	return openapi3filter.Options{ExcludeResponseBody: c.VOpts&1 != 0, IncludeResponseStatus: c.VOpts&2 != 0, MultiError: c.VOpts&4 != 0}
 }
 
 const specJSON = `{"openapi":"3.0.3","info":{"title":"t","version":"1"},"paths":{"/r":{"head":{"responses":{"200":{"description":"ok"}}},"post":{
@@ -216,6 +222,9 @@ func check(c Case) (o h.Outcome) {
 	}
 
 	opts := []openapi3filter.ValidatorOption{openapi3filter.Strict(c.Strict), openapi3filter.OnLog(func(context.Context, string, error) {})}
+	if c.VOpts != 0 {
+		opts = append(opts, openapi3filter.ValidationOptions(vopts(c)))
+	}
 	if c.OnErr {
 		opts = append(opts, openapi3filter.OnErr(func(_ context.Context, w http.ResponseWriter, status int, code openapi3filter.ErrCode, _ error) {
 			errCalls = append(errCalls, errCall{status, code})
@@ -266,9 +275,10 @@ func check(c Case) (o h.Outcome) {
 	}
 	// the handler ran: is its response valid?
 	route, _ := kinx.Route(doc, "/r", "POST")
+	vo := vopts(c)
 	rin := &openapi3filter.ResponseValidationInput{
-		RequestValidationInput: &openapi3filter.RequestValidationInput{Request: request("valid"), Route: route},
-		Status:                 refStatus, Header: ref.Header(), Body: io.NopCloser(bytes.NewReader(refBody)),
+		RequestValidationInput: &openapi3filter.RequestValidationInput{Request: request("valid"), Route: route, Options: &vo},
+		Status:                 refStatus, Header: ref.Header(), Body: io.NopCloser(bytes.NewReader(refBody)), Options: &vo,
 	}
 	respErr := openapi3filter.ValidateResponse(context.Background(), rin)
 	o.Class("response-valid=%v", respErr == nil)
@@ -431,7 +441,8 @@ func gen(t *rapid.T) Case {
 	}
 	return Case{Request: rapid.SampledFrom([]string{"valid", "valid", "valid", "invalid", "unroutable"}).Draw(t, "request"), Script: s,
 		Strict: rapid.Bool().Draw(t, "strict"), OnErr: rapid.Bool().Draw(t, "onerr"), Front: rapid.SampledFrom([]string{"validator", "validator", "validator", "handler-serve", "handler-middleware"}).Draw(t, "front"),
-		Prelude: rapid.SampledFrom([]string{"", "", "head", "invalid", "unroutable", "bad-response", "good-response"}).Draw(t, "prelude")}
+		Prelude: rapid.SampledFrom([]string{"", "", "head", "invalid", "unroutable", "bad-response", "good-response"}).Draw(t, "prelude"),
+		VOpts:   rapid.SampledFrom([]int{0, 0, 1, 2, 3, 4, 5, 7}).Draw(t, "vopts")}
 }
 
 var _ = jv.Canon
